@@ -570,4 +570,75 @@ example : NetVerif.Model.RFC9218Priority.parsePriority [117, 61, 45, 49] true = 
 example : NetVerif.Model.RFC9218Priority.parsePriority [117, 61, 55, 44, 32, 105] true = ((7, 1), true) := by decide
 example : NetVerif.Model.RFC9218Priority.parsePriority [117, 61, 49, 44, 32, 117, 61, 53] false = ((5, 1), true) := by decide
 
+/-! ## Level fairness: the full statement is FALSE for the code as it is (known finding
+`p9218-alternation-global-parity`)
+
+"Among sendable streams of equal urgency no stream is starved", read on the Pops answered from ONE urgency
+level: while both classes of the level are sendable, two consecutive Pops answered from that level must not
+serve the same class.  The scheduler alternates with a single global bit that every Pop reaching the stream
+queues flips, also Pops answered from a more urgent level; such Pops can lock the parity. -/
+
+/-- Monitor over a history: `streak b` counts the consecutive Pops answered from `b`'s urgency level that
+served the sibling class while class `b` had a sendable stream.  `true` = some streak reached 2. -/
+def altViolates (e : Env) (s : P9218) (streak : Nat → Nat) : List Op → Bool
+  | [] => false
+  | .pop h :: ops =>
+    match s.control.shift with
+    | some _ => altViolates (s.pop e).1 (s.pop e).2.1 streak ops
+    | none =>
+      match firstClass e s.qs s.ring (classOrder (!s.toggle)) with
+      | none => altViolates (s.pop e).1 (s.pop e).2.1 streak ops
+      | some (c, _, _, _) =>
+        let other := if c % 2 = 1 then c - 1 else c + 1
+        let so := if (s.ring other).any (fun y => sendable e (s.qs y)) then streak other + 1 else 0
+        if so ≥ 2 then true
+        else altViolates (s.pop e).1 (s.pop e).2.1 (upd (upd streak other so) c 0) ops
+  | op :: ops => altViolates ((Sched.p9 s).step e op).1
+      (match ((Sched.p9 s).step e op).2.1 with | .p9 s' => s' | _ => s) streak ops
+
+/-- **Full level-fairness statement** (all contract-respecting histories). -/
+def LevelFairStatement : Prop :=
+  ∀ (e : Env) (ops : List Op), Contract (fun _ => false) ops → altViolates e {} (fun _ => 0) ops = false
+
+/-- The reported input: stream 1 (u=0), stream 3 (u=3, non-incremental), stream 5 (u=3, incremental), 3 and 5
+with frames queued; one frame is pushed on stream 1 before every second Pop.  Every Pop answered from
+urgency 3 serves stream 3. -/
+def parityWitness : List Op :=
+  [.openS 1 0 0, .openS 3 0 6, .openS 5 0 7,
+   .push (.hdr 3 1), .push (.hdr 5 2), .push (.hdr 3 3), .push (.hdr 5 4), .push (.hdr 3 5), .push (.hdr 5 6),
+   .push (.hdr 1 7), .pop none, .pop none, .push (.hdr 1 8), .pop none, .pop none]
+
+theorem parityWitness_contract : Contract (fun _ => false) parityWitness := by
+  simp [parityWitness, Contract, OpOK, opnOp, pushOK, upd]
+
+theorem parityWitness_results : ((Sched.p9 {}).run exEnv parityWitness).2.2.drop 9 =
+    [.ok, .frame (.hdr 1 7), .frame (.hdr 3 1), .ok, .frame (.hdr 1 8), .frame (.hdr 3 3)] := by decide
+
+/-- **The full statement is false for the code as it is.** -/
+theorem level_fair_full_false : ¬ LevelFairStatement := by
+  intro h
+  have := h exEnv parityWitness parityWitness_contract
+  revert this
+  decide
+
+/-- **What holds** (excluded region: a Pop answered from another urgency level, or by nothing, between the two
+Pops): two CONSECUTIVE Pops that both reach the stream queues and both serve the same urgency level while
+a stream of the respective other class is sendable serve different classes. -/
+theorem level_alternation_partial {e1 e2 : Env} {s : P9218} {opn : Nat → Bool} {c1 id1 c2 id2 : Nat}
+    {pre1 post1 pre2 post2 : List Nat} (hi : P9Inv s opn) (hi2 : P9Inv (s.pop e1).2.1 opn)
+    (h1 : Served e1 s c1 id1 pre1 post1) (h2 : Served e2 (s.pop e1).2.1 c2 id2 pre2 post2)
+    (x1 d1 : Nat) (hx1 : s.prio x1 = some d1) (hu1 : d1 / 2 = c1 / 2) (hn1 : d1 ≠ c1)
+    (hs1 : sendable e1 (s.qs x1) = true)
+    (x2 d2 : Nat) (hx2 : (s.pop e1).2.1.prio x2 = some d2) (hu2 : d2 / 2 = c2 / 2) (hn2 : d2 ≠ c2)
+    (hs2 : sendable e2 ((s.pop e1).2.1.qs x2) = true) :
+    c1 % 2 ≠ c2 % 2 := by
+  have a1 := alternation hi h1 x1 d1 hx1 hu1 hn1 hs1
+  have a2 := alternation hi2 h2 x2 d2 hx2 hu2 hn2 hs2
+  have ht := (control_pop h1).2
+  rw [ht] at a2
+  intro heq
+  rw [heq] at a1
+  rw [a1] at a2
+  cases hb : s.toggle <;> simp [hb] at a2
+
 end NetVerif.Proofs.C13
